@@ -21,6 +21,14 @@ SHAPES = [
     ("struct-field", "{c}St {n}{i};", "{n}.f", " = {1, 2}"),
     ("array-of-struct-field", "{c}St {n}[2]{i};", "{n}[1].g", " = {{1, 2}, {3, 4}}"),
     ("matrix-element", "{c}int {n}[2][2]{i};", "{n}[1][0]", " = {{1, 2}, {3, 4}}"),
+    # initialisers and sizes with quantifiers in them (the declared type is decided after the initialiser has been parsed)
+    ("int-sum-initialiser", "{c}int {n}{i};", "{n}", " = sum (qi : int[0,2]) qi"),
+    ("int-forall-initialiser", "{c}int {n}{i};", "{n}", " = (forall (qi : int[0,1]) qi >= 0) ? 1 : 2"),
+    ("int-exists-initialiser", "{c}int {n}{i};", "{n}", " = (exists (qi : int[0,1]) qi == 1) ? 1 : 2"),
+    ("bounded-sum-initialiser", "{c}Rng {n}{i};", "{n}", " = sum (qi : int[0,1]) qi"),
+    ("array-element-sum-initialiser", "{c}int {n}[2]{i};", "{n}[0]", " = {sum (qi : int[0,1]) qi, 2}"),
+    ("array-size-with-quantifier", "{c}int {n}[(forall (qi : int[0,1]) qi >= 0) ? 2 : 3]{i};", "{n}[0]", " = {1, 2}"),
+    ("second-declarator-after-quantifier", "{c}int first{n} = sum (qi : int[0,1]) qi, {n}{i};", "{n}", " = 1"),
 ]
 # write forms on an lvalue X (statement text); {X} the target, {other} a mutable int of the same type
 WRITES = [
@@ -43,7 +51,7 @@ def model(gdecl="", ldecl="", params=None, select=None, assign=None, system="P =
 def cells():
     """yields (cell id, const document, twin document or None)"""
     for sid, decl, lv, init in SHAPES:
-        el = "Rng" if sid == "bounded-typedef" else "int"
+        el = "Rng" if sid.startswith("bounded") else "int"
         for wid, wtext in WRITES:
             stmt = wtext.format(X=lv.format(n="t"))
             for c in ("const ", ""):
@@ -53,6 +61,8 @@ def cells():
                 yield ("const-global:" + key, c, model(gdecl=d, assign=stmt, elem=el))
                 yield ("const-template-local:" + key, c, model(ldecl=d, assign=stmt, elem=el))
                 yield ("const-in-function-local:" + key, c, model(gdecl="void fn() { %s %s; }" % (d, stmt), assign="fn()", elem=el))
+                if sid == "second-declarator-after-quantifier" or sid == "array-size-with-quantifier":
+                    continue        # (declaration lists and computed sizes are not parameter syntax)
                 pdecl = decl.format(c=c, n="t", i="").rstrip(";")
                 pdecl_ref = pdecl.replace(" t", " &t", 1)
                 yield ("const-value-param-of-function:" + key, c,
